@@ -95,6 +95,22 @@ def tree_hash(root=None):
     return h.hexdigest()
 
 
+def bounded_target(tgt, every=60):
+    """harness target directories grow with every distinct path of the analysed tree (scratch copies): wipe them every `every` builds"""
+    try:
+        os.makedirs(tgt, exist_ok=True)
+        cf_ = os.path.join(tgt, ".pcv-builds")
+        n = int(open(cf_).read().strip() or 0) if os.path.exists(cf_) else 0
+        if n >= every:
+            shutil.rmtree(tgt, ignore_errors=True)
+            os.makedirs(tgt, exist_ok=True)
+            n = 0
+        open(cf_, "w").write(str(n + 1))
+    except (OSError, ValueError):
+        pass
+    return tgt
+
+
 class locked:
     """exclusive advisory lock on .cache/lock-<name>: harness crates share one work/target directory"""
     def __init__(self, name):
